@@ -133,6 +133,7 @@ QVariant parseValue(Tok &k)
         return QVariant(d);
     }
     if (c == "N") return QVariant();
+    if (c == "Q") return QVariant(QString());   // a null string, e.g. QCoreApplication::applicationVersion() when none was set
     if (c == "L") {
         int n = int(k.num());
         QVariantList l;
